@@ -216,6 +216,7 @@ theorem pres_kwRef {rec : Rec} (hrec : ∀ i s, Pres R (rec i s)) (ref inst : Js
     contains the resolver's elementary moves gives a `Closed` predicate -/
 theorem presClosed : Closed env (Pres R) where
   emit := pres_emit H
+  nothing := ⟨fun _ st => H.refl st⟩
   stop := fun s _ => pres_stopG H s
   andThen := pres_andThen H
   mapErrs := pres_mapErrs
